@@ -88,7 +88,14 @@ func (b bigLRU) do(op lruOp) (o lruOut) {
 	case "stats":
 		l, s, cp, e := c.Stats()
 		o.Stats = [4]int64{l, s, cp, e}
-		// the single accessors must agree with Stats when nothing runs in between (sequential use)
+	case "length":
+		o.Stats[0] = c.Length()
+	case "size":
+		o.Stats[1] = c.Size()
+	case "capacity":
+		o.Stats[2] = c.Capacity()
+	case "evictions":
+		o.Stats[3] = c.Evictions()
 	case "keys":
 		var r []int
 		for _, k := range c.Keys() {
@@ -142,6 +149,14 @@ func (b tinyLRU) do(op lruOp) (o lruOut) {
 	case "stats":
 		l, s, cp, e := c.Stats()
 		o.Stats = [4]int64{l, s, cp, e}
+	case "length":
+		o.Stats[0] = c.Length()
+	case "size":
+		o.Stats[1] = c.Size()
+	case "capacity":
+		o.Stats[2] = c.Capacity()
+	case "evictions":
+		o.Stats[3] = c.Evictions()
 	case "keys":
 		var r []int
 		for _, k := range c.Keys() {
@@ -295,6 +310,14 @@ func (m mLRU) apply(op lruOp, tinyMode bool) (mLRU, lruOut) {
 		n.evict()
 	case "stats":
 		o.Stats = [4]int64{int64(len(n.items)), n.size(), n.cap, n.ev}
+	case "length":
+		o.Stats[0] = int64(len(n.items))
+	case "size":
+		o.Stats[1] = n.size()
+	case "capacity":
+		o.Stats[2] = n.cap
+	case "evictions":
+		o.Stats[3] = n.ev
 	case "keys":
 		var r []int
 		for _, it := range n.items {
@@ -377,7 +400,7 @@ func drawC04(rt *rapid.T) interface{} {
 	if wide {
 		choices = []string{"set", "set", "set", "get", "get", "peek", "exist", "del"}
 	} else {
-		choices = []string{"set", "set", "set", "setabs", "setrem", "setrem", "get", "get", "peek", "exist", "del", "clear", "setcap", "stats", "keys", "items"}
+		choices = []string{"set", "set", "set", "setabs", "setrem", "setrem", "get", "get", "peek", "exist", "del", "clear", "setcap", "stats", "keys", "items", "length", "size", "capacity", "evictions"}
 	}
 	nt := rapid.IntRange(1, 4).Draw(rt, "ntasks")
 	maxOps := 7
